@@ -226,7 +226,9 @@ def run_shard(ctx):
                 only_nc = all((lambda f: f.role == "prop" and not f.compare)(next(f for f in init_fields if f.name == k)) for k in changes)
                 if only_nc:
                     ctx.count("replace_noncompare_only")
-                    if not twin_registered and new.id != n.id:
+                    # (an original that still carries a collision suffix from a twin that is gone by now gets
+                    # the un-suffixed id, which is what a fresh construction gets: covered by the control above)
+                    if not twin_registered and n.id == base_id and new.id != n.id:
                         bad("replace-id", "only non-comparable fields changed and no twin registered, but the id changed", got=new.id, orig=n.id, **info)
             for t in twins:
                 t.detach_self()
